@@ -202,7 +202,18 @@ def _check(events, imports=None):
                     raise Any()
             if 'datatype' in attrs:
                 datatype_name(attrs['datatype'])
+            inherited = None
+            if 'extends' in attrs:
+                ext = (imports or {}).get('__extends__', {})
+                if not isinstance(attrs['extends'], str) or attrs['extends'] not in ext:
+                    raise Any()
+                inherited = ext[attrs['extends']]
+                if 'keytype' not in attrs:
+                    kt = inherited['keytype']       # the key type is inherited along the whole chain
             schema = Container(None, kt)
+            if inherited is not None:
+                for nm, an in inherited['children']:
+                    schema.add_child(nm, an)
             stack.append(schema)
         elif name == 'abstracttype':
             n = attrs.get('name')
